@@ -10,6 +10,7 @@ import (
 	"strings"
 	"sync"
 	"sync/atomic"
+	"testing/iotest"
 
 	"github.com/datastax/go-cassandra-native-protocol/datatype"
 	"github.com/datastax/go-cassandra-native-protocol/frame"
@@ -59,6 +60,9 @@ var sourceKinds = []struct {
 	{"reader", func(b []byte) io.Reader { return bytes.NewReader(b) }},
 	{"buffer", func(b []byte) io.Reader { return bytes.NewBuffer(b) }},
 	{"plain", func(b []byte) io.Reader { return plainReader{bytes.NewReader(b)} }},
+	// a connection that delivers the frame in pieces: one Read returns less than was asked for
+	{"half", func(b []byte) io.Reader { return iotest.HalfReader(bytes.NewReader(b)) }},
+	{"one-byte", func(b []byte) io.Reader { return iotest.OneByteReader(bytes.NewReader(b)) }},
 }
 
 func main() {
@@ -114,6 +118,10 @@ func main() {
 			flags := []bool{false}
 			if comp != primitive.CompressionNone && fcheck.Compressible(cs.Frame) {
 				flags = []bool{true}
+			} else if comp != primitive.CompressionNone && cs.Frame.Header.OpCode != primitive.OpCodeStartup {
+				// OPTIONS and READY (empty bodies): the mutators never flag them, but a header flag set by hand
+				// is encoded as asked - an empty body that travels compressed
+				flags = []bool{false, true}
 			}
 			for _, cf := range flags {
 				f := gen.Clone(cs.Frame).(*frame.Frame)
@@ -164,6 +172,27 @@ func main() {
 						keys["source"] = sk.name
 						c.Violation(keys, fmt.Sprintf("%s (%s, %s): after DecodeFrame %d bytes are left, expected the %d sentinel bytes", cs.Name, comp, sk.name, len(rest), len(sentinel)), map[string]interface{}{"case": cs.Name, "compression": comp})
 					}
+				}
+				// ... and so does the raw decoder (header + raw body), from every kind of source
+				for _, sk := range sourceKinds {
+					if bad {
+						break
+					}
+					r := sk.mk(append(append([]byte{}, wire...), sentinel...))
+					var rf *frame.RawFrame
+					var err error
+					if pv, site := vlib.Catch(func() { rf, err = fcheck.RawCodec(comp).DecodeRawFrame(r) }); pv != nil {
+						c.Violation(map[string]string{"kind": "panic", "site": site}, fmt.Sprintf("%s: DecodeRawFrame panics: %v", cs.Name, pv), cs.Name)
+						break
+					}
+					rest, _ := io.ReadAll(r)
+					if err != nil || !bytes.Equal(rest, sentinel) || !bytes.Equal(rf.Body, wire[hl:]) {
+						keys["kind"] = "raw-decoder-consumption"
+						keys["source"] = sk.name
+						c.Violation(keys, fmt.Sprintf("%s (%s, %s): after DecodeRawFrame (err=%v) %d bytes are left, expected the %d sentinel bytes; raw body equals the emitted body: %v", cs.Name, comp, sk.name, err, len(rest), len(sentinel), rf != nil && bytes.Equal(rf.Body, wire[hl:])), map[string]interface{}{"case": cs.Name, "compression": comp})
+						break
+					}
+					atomic.AddInt64(&validated, 1)
 				}
 				if bad {
 					continue
